@@ -298,6 +298,32 @@ def _viewpoint(rng: random.Random, pts: List[List[float]], mode: str) -> Tuple[L
     return obs.tolist(), ceil.tolist()
 
 
+def _ring(rng: random.Random) -> dict:
+    """A history case: ONE re-orienter (observer in the middle, ceiling point far away) used for several blocks that
+    the observer sees in clearly different directions."""
+    import numpy as np
+
+    obs = np.array([_dy(rng, -1, 1, 8) for _ in range(3)])
+    up = rng.choice([[0, 0, 1], [0, 0, 1], [0, 1, 0], [1, 0, 0], [0, 0, -1]])
+    ceil = obs + 128.0 * np.array(up, dtype=float) + np.array([_dy(rng, -8, 8, 8) for _ in range(3)])
+    # two directions perpendicular to `up` span the ring
+    a = np.array([up[1], up[2], up[0]], dtype=float)
+    b = np.cross(np.array(up, dtype=float), a)
+    n = rng.randint(2, 5)
+    start = rng.uniform(0, 2 * math.pi)
+    blocks = []
+    for k in range(n):
+        theta = start + k * 2 * math.pi / n + rng.uniform(-0.2, 0.2)
+        dist = rng.choice([3.0, 4.0, 6.0])
+        centre = obs + dist * (math.cos(theta) * a + math.sin(theta) * b) + _dy(rng, -0.5, 0.5, 8) * np.array(up, dtype=float)
+        kind = rng.choice(["box", "warped", "frustum", "rotated", "par"])
+        pts = np.array(_hex(rng, kind))
+        pts = pts - pts.mean(axis=0) + np.round(centre * 64) / 64
+        pts = np.round(pts * 2**20) / 2**20
+        blocks.append({"hex": kind, "pts": pts.tolist(), "num": list(rng.choice(SYM48))})
+    return {"kind": "reorient-seq", "obs": obs.tolist(), "ceil": ceil.tolist(), "blocks": blocks}
+
+
 # ----------------------------------------------------------------------------- geometry of the oracle (floats with margins)
 def _tri_normals(p, cyc):
     """unit outward normals of the four triangles a side can be split into, and of the side's area vector
@@ -397,12 +423,15 @@ class C18(core.Check):
         "semi-cylinder / frustum, 10 queries each: spheres centred at or near a vertex or anywhere, radius default TOL, "
         "a multiple (0.9 .. 2) of the distance to another vertex, zero or negative; planes through a vertex with axis, "
         "random or vertex-spanned normals of any length, zero normal included; sphere queries closer than 1e-3 relative "
-        "to the radius and plane queries with a vertex between TOL/3 and 3 TOL from the plane are skipped. shape cases: Cylinder, SemiCylinder, Frustum, Elbow, ExtrudedRing (5/8 segments), "
+        "to the radius and plane queries with a vertex between TOL/3 and 3 TOL from the plane are skipped; the same queries "
+        "are repeated on the same finder object after two vertices have been moved (history). shape cases: Cylinder, SemiCylinder, Frustum, Elbow, ExtrudedRing (5/8 segments), "
         "RoundSolidShape over OneCoreDisk/QuarterDisk, random axis/radius/length, optionally chained, find_core and "
         "find_shell on both end faces. reorient cases: box / warped (corner jitter up to 12%) / sheared parallelepiped / "
         "frustum-like / rotated hexahedra with dyadic coordinates, a viewpoint (40% roughly face-on, 40% anywhere, 20% between two sides), all 48 "
         "initial numberings plus 8 arbitrary scrambles of the eight points (quick tier: all 48 for every fourth block, "
-        "13 of them and 4 scrambles for the others); non-convex blocks as malformed stream. "
+        "13 of them and 4 scrambles for the others); non-convex blocks as malformed stream. history cases: ONE ViewpointReorienter object (observer in the middle, "
+        "ceiling far away along an axis) re-used for a ring of 2..5 blocks seen in clearly different directions, every block "
+        "judged from its own centre and against a fresh object. "
         "Non-trivial = at least one vertex found or a re-orientation that returns; distinct = different geometry/query."
     )
     assumptions = [
@@ -434,7 +463,8 @@ class C18(core.Check):
             queries = []
             for _ in range(10):
                 queries.append(self._query(rng))
-            cases.append({"kind": "find", "mesh": spec, "queries": queries})
+            moved = [[rng.randrange(1000), [rng.choice([-1, 1]) * _dy(rng, 0.25, 0.75) for _ in range(3)]] for _ in range(2)]
+            cases.append({"kind": "find", "mesh": spec, "queries": queries, "moved": moved})
         types = ["Cylinder", "SemiCylinder", "Frustum", "Elbow", "ExtrudedRing", "OneCoreDisk", "QuarterDisk"]
         for n in range(21 if quick else 280):
             cases.append({"kind": "shape", "round": _round_spec(rng, types[n % len(types)], [0.0, 0.0, 0.0])})
@@ -450,6 +480,9 @@ class C18(core.Check):
             else:  # all 48 initial numberings and 8 arbitrary scrambles of the eight points
                 nums = [list(p) for p in SYM48] + [rng.sample(range(8), 8) for _ in range(8)]
             cases.append({"kind": "reorient", "hex": kind, "pts": pts, "obs": obs, "ceil": ceil, "numberings": nums})
+        # histories: one re-orienter instance for a ring of blocks around the observer
+        for _ in range(8 if quick else 120):
+            cases.append(_ring(rng))
         # malformed stream: one corner pulled into the block (not convex)
         for _ in range(3 if quick else 30):
             import numpy as np
@@ -504,6 +537,8 @@ class C18(core.Check):
             return self._impl_find(case)
         if case["kind"] == "shape":
             return self._impl_shape(case)
+        if case["kind"] == "reorient-seq":
+            return self._impl_reorient_seq(case)
         return self._impl_reorient(case)
 
     def _impl_find(self, case: dict) -> Any:
@@ -519,48 +554,59 @@ class C18(core.Check):
         index = {id(v): i for i, v in enumerate(mesh.vertices)}
         finder = cb.GeometricFinder(mesh)
         n = len(verts)
-        out = []
-        for q in case["queries"]:
-            res: Dict[str, Any] = {"type": q["type"]}
-            if "free" in q:
-                centre = np.array(q["free"], dtype=float)
-            else:
-                centre = verts[q["at"] % n] + np.array(q["off"], dtype=float)
-            res["centre"] = centre.tolist()
-            if q["type"] == "sphere":
-                rad = q["radius"]
-                if rad is None:
-                    radius = None
-                elif rad[0] == "to":
-                    radius = float(np.linalg.norm(verts[rad[1] % n] - centre)) * rad[2]
-                else:
-                    radius = float(rad[1])
-                res["radius"] = radius
-                found = finder.find_in_sphere(centre, radius)
-                reff = tol if radius is None else radius
-                dist = [float(np.linalg.norm(v - centre)) for v in verts]
-                res["boundary"] = any(abs(d - reff) < 1e-3 * abs(reff) + 1e-12 for d in dist) and reff > 0
-            else:
-                if "span" in q:
-                    a, b = (verts[k % n] - verts[q["at"] % n] for k in q["span"])
-                    normal = np.cross(a, b)
-                else:
-                    normal = np.array(q["normal"], dtype=float)
-                res["normal"] = normal.tolist()
-                with np.errstate(all="ignore"):
-                    found = finder.find_on_plane(centre, normal)
-                nn = float(np.linalg.norm(normal))
-                if nn == 0:
-                    dist = [float(np.linalg.norm(v - centre)) for v in verts]
-                else:
-                    dist = [abs(float(np.dot(v - centre, normal))) / nn for v in verts]
-                    # a span normal can be (nearly) zero: treat tiny normals as boundary
-                    res["boundary"] = nn < 1e-6
-                res["boundary"] = res.get("boundary", False) or any(tol / 3 <= d <= tol * 3 for d in dist)
-            res["found"] = sorted(index[id(v)] for v in found)
-            res["is_set"] = isinstance(found, set)
-            out.append(res)
-        return {"verts": [v.tolist() for v in verts], "queries": out, "tol": tol}
+        phases = []
+        for phase in range(2):
+          if phase == 1:
+              # history: the same finder object after some vertices have been moved (nothing may be cached)
+              if not case.get("moved"):
+                  break
+              for k, d in case["moved"]:
+                  vertex = mesh.vertices[k % n]
+                  vertex.move_to(vertex.position + np.array(d, dtype=float))
+              verts = [np.array(v.position, dtype=float) for v in mesh.vertices]
+          out = []
+          for q in case["queries"]:
+              res: Dict[str, Any] = {"type": q["type"]}
+              if "free" in q:
+                  centre = np.array(q["free"], dtype=float)
+              else:
+                  centre = verts[q["at"] % n] + np.array(q["off"], dtype=float)
+              res["centre"] = centre.tolist()
+              if q["type"] == "sphere":
+                  rad = q["radius"]
+                  if rad is None:
+                      radius = None
+                  elif rad[0] == "to":
+                      radius = float(np.linalg.norm(verts[rad[1] % n] - centre)) * rad[2]
+                  else:
+                      radius = float(rad[1])
+                  res["radius"] = radius
+                  found = finder.find_in_sphere(centre, radius)
+                  reff = tol if radius is None else radius
+                  dist = [float(np.linalg.norm(v - centre)) for v in verts]
+                  res["boundary"] = any(abs(d - reff) < 1e-3 * abs(reff) + 1e-12 for d in dist) and reff > 0
+              else:
+                  if "span" in q:
+                      a, b = (verts[k % n] - verts[q["at"] % n] for k in q["span"])
+                      normal = np.cross(a, b)
+                  else:
+                      normal = np.array(q["normal"], dtype=float)
+                  res["normal"] = normal.tolist()
+                  with np.errstate(all="ignore"):
+                      found = finder.find_on_plane(centre, normal)
+                  nn = float(np.linalg.norm(normal))
+                  if nn == 0:
+                      dist = [float(np.linalg.norm(v - centre)) for v in verts]
+                  else:
+                      dist = [abs(float(np.dot(v - centre, normal))) / nn for v in verts]
+                      # a span normal can be (nearly) zero: treat tiny normals as boundary
+                      res["boundary"] = nn < 1e-6
+                  res["boundary"] = res.get("boundary", False) or any(tol / 3 <= d <= tol * 3 for d in dist)
+              res["found"] = sorted(index[id(v)] for v in found)
+              res["is_set"] = isinstance(found, set)
+              out.append(res)
+          phases.append({"verts": [v.tolist() for v in verts], "queries": out})
+        return {"phases": phases, "tol": tol}
 
     def _impl_shape(self, case: dict) -> Any:
         import numpy as np
@@ -646,24 +692,98 @@ class C18(core.Check):
             vp.ViewpointReorienter._get_aligned = real_aligned
         return {"results": results}
 
+    def _impl_reorient_seq(self, case: dict) -> Any:
+        """One ViewpointReorienter object, re-used for every block of the case in turn (and, for comparison, a fresh
+        object per block)."""
+        import numpy as np
+
+        import classy_blocks as cb
+        from classy_blocks.modify.reorient import viewpoint as vp
+
+        record: Dict[str, Any] = {}
+        real_hull = vp.ConvexHull
+        real_aligned = vp.ViewpointReorienter._get_aligned
+
+        def hull(points):
+            h = real_hull(points)
+            record["simplices"] = [[int(i) for i in s] for s in h.simplices]
+            return h
+
+        def aligned(self, triangles, vector):
+            keys = sorted(float(np.dot(t.normal, vector)) for t in triangles)
+            if len(keys) >= 3:
+                record["gap"] = min(record.get("gap", 1.0), keys[-2] - keys[-3])
+            res = real_aligned(self, triangles, vector)
+            if len(res) == 2:
+                record["gap"] = min(record.get("gap", 1.0), abs(float(np.dot(res[0].normal, res[1].normal)) - 0.5))
+            return res
+
+        def one(reorienter, base, num):
+            q = base[num]
+            record.clear()
+            op = cb.Loft(cb.Face(q[:4]), cb.Face(q[4:]))
+            r: Dict[str, Any] = {"num": num}
+            try:
+                with np.errstate(all="ignore"):
+                    reorienter.reorient(op)
+                out = op.point_array
+                idx = []
+                for o in out:
+                    hits = [i for i in range(8) if np.array_equal(base[i], o)]
+                    idx.append(hits[0] if hits else -1)
+                r["out"] = idx
+            except Exception as e:
+                r["err"] = type(e).__name__
+            r["simplices"] = record.get("simplices")
+            r["gap"] = record.get("gap", 1.0)
+            return r
+
+        results, fresh = [], []
+        vp.ConvexHull = hull
+        vp.ViewpointReorienter._get_aligned = aligned
+        try:
+            shared = vp.ViewpointReorienter(case["obs"], case["ceil"])
+            for b in case["blocks"]:
+                base = np.array(b["pts"], dtype=float)
+                results.append(one(shared, base, b["num"]))
+            for b in case["blocks"]:
+                base = np.array(b["pts"], dtype=float)
+                f = one(vp.ViewpointReorienter(case["obs"], case["ceil"]), base, b["num"])
+                fresh.append(f.get("out", f.get("err")))
+        finally:
+            vp.ConvexHull = real_hull
+            vp.ViewpointReorienter._get_aligned = real_aligned
+        return {"results": results, "fresh": fresh}
+
     # ------------------------------------------------------------------ model
     def requests(self, case: dict, impl: Any) -> List[str]:
         reqs: List[str] = []
         if case["kind"] == "find":
-            vs = _pts(impl["verts"])
-            for q in impl["queries"]:
-                if q["boundary"]:
-                    continue
-                if q["type"] == "sphere":
-                    r = "tol" if q["radius"] is None else _fr(q["radius"])
-                    reqs.append(f"c18.sphere {_pt(q['centre'])} {r} {vs}")
-                else:
-                    reqs.append(f"c18.plane {_pt(q['centre'])} {_pt(q['normal'])} {vs}")
+            for ph in impl["phases"]:
+                vs = _pts(ph["verts"])
+                for q in ph["queries"]:
+                    if q["boundary"]:
+                        continue
+                    if q["type"] == "sphere":
+                        r = "tol" if q["radius"] is None else _fr(q["radius"])
+                        reqs.append(f"c18.sphere {_pt(q['centre'])} {r} {vs}")
+                    else:
+                        reqs.append(f"c18.plane {_pt(q['centre'])} {_pt(q['normal'])} {vs}")
         elif case["kind"] == "shape":
             vs = _pts(impl["verts"])
             for e in impl["ends"]:
                 for part in ("core", "shell"):
                     reqs.append(f"c18.shape {e['sketch']} {part} {_pts(e['points'])} {vs}")
+        elif case["kind"] == "reorient-seq":
+            import numpy as np
+
+            if all(r["simplices"] is not None and r["gap"] >= TIE for r in impl["results"]):
+                parts = []
+                for b, r in zip(case["blocks"], impl["results"]):
+                    base = np.array(b["pts"], dtype=float)
+                    tris = ";".join("-".join(map(str, s)) for s in r["simplices"]) or "-"
+                    parts.append(_pts(base[r["num"]]) + "|" + tris)
+                reqs.append(f"c18.seq {_pt(case['obs'])} {_pt(case['ceil'])} " + " ".join(parts))
         else:
             import numpy as np
 
@@ -685,13 +805,15 @@ class C18(core.Check):
     def compare(self, case: dict, impl: Any, model: List[str]) -> Optional[str]:
         pos = 0
         if case["kind"] == "find":
-            for q in impl["queries"]:
-                if q["boundary"]:
-                    continue
-                want = "[" + ",".join(map(str, q["found"])) + "]"
-                if model[pos] != want:
-                    return f"{q['type']} query {q}: implementation finds {want}, model {model[pos]}"
-                pos += 1
+            for k, ph in enumerate(impl["phases"]):
+                for q in ph["queries"]:
+                    if q["boundary"]:
+                        continue
+                    want = "[" + ",".join(map(str, q["found"])) + "]"
+                    if model[pos] != want:
+                        when = " (after vertices were moved)" if k else ""
+                        return f"{q['type']} query{when} {q}: implementation finds {want}, model {model[pos]}"
+                    pos += 1
             return None
         if case["kind"] == "shape":
             for e in impl["ends"]:
@@ -700,6 +822,21 @@ class C18(core.Check):
                     if model[pos] != want:
                         return f"find_{part} on {e['sketch']}: implementation {want}, model {model[pos]}"
                     pos += 1
+            return None
+        cls = {"err notconvex": "DegenerateGeometryError", "err degenerate": "DegenerateGeometryError", "err index": "IndexError"}
+        if case["kind"] == "reorient-seq":
+            if not model:
+                return None
+            answers = model[0].split("|")
+            if len(answers) != len(impl["results"]):
+                return f"history of {len(impl['results'])} blocks: model answers {model[0]}"
+            for k, (r, ans) in enumerate(zip(impl["results"], answers)):
+                if "out" in r:
+                    want = "ok [" + ",".join(str(r["num"].index(i)) if i in r["num"] else "8" for i in r["out"]) + "]"
+                    if ans != want:
+                        return f"block {k} of a re-used re-orienter: implementation {want}, model {ans}"
+                elif cls.get(ans) != r["err"]:
+                    return f"block {k} of a re-used re-orienter: implementation raises {r['err']}, model {ans}"
             return None
         for r in impl["results"]:
             if r["simplices"] is None or r["gap"] < TIE:
@@ -730,14 +867,46 @@ class C18(core.Check):
             return self._oracle_find(case, impl)
         if case["kind"] == "shape":
             return self._oracle_shape(case, impl)
+        if case["kind"] == "reorient-seq":
+            return self._oracle_reorient_seq(case, impl)
         return self._oracle_reorient(case, impl)
+
+    def _oracle_reorient_seq(self, case: dict, impl: Any) -> List[dict]:
+        """Every block of the history is judged from ITS OWN centre, exactly like a block re-oriented alone; and what a
+        re-used re-orienter returns must be what a fresh one returns."""
+        out: List[dict] = []
+        for k, (b, r) in enumerate(zip(case["blocks"], impl["results"])):
+            sub = {"kind": "reorient", "hex": b["hex"], "pts": b["pts"], "obs": case["obs"], "ceil": case["ceil"]}
+            for v in self._oracle_reorient(sub, {"results": [r]}):
+                v = dict(v)
+                v["what"] = f"block {k} of {len(case['blocks'])} re-oriented by one re-used ViewpointReorienter: " + v["what"]
+                out.append(v)
+            if out:
+                break
+            fresh = impl["fresh"][k]
+            if r["gap"] >= TIE and r.get("out", r.get("err")) != fresh:
+                out.append(
+                    {
+                        "site": "ViewpointReorienter.reorient:result-depends-on-earlier-blocks",
+                        "what": f"block {k}: the re-used re-orienter gives {r.get('out', r.get('err'))}, a fresh one {fresh}",
+                        "observed": r.get("out", r.get("err")),
+                        "expected": fresh,
+                    }
+                )
+                break
+        return out
 
     def _oracle_find(self, case: dict, impl: Any) -> List[dict]:
         out: List[dict] = []
-        verts = [_F(v) for v in impl["verts"]]
-        tol = Fraction(impl["tol"])  # the library's merge tolerance (constants.TOL), read at run time
+        for k, ph in enumerate(impl["phases"]):
+            out += self._oracle_find_phase(ph, Fraction(impl["tol"]), ":after-vertices-moved" if k else "")
+        return out
+
+    def _oracle_find_phase(self, ph: dict, tol: Fraction, suffix: str) -> List[dict]:
+        out: List[dict] = []
+        verts = [_F(v) for v in ph["verts"]]  # tol: the library's merge tolerance (constants.TOL), read at run time
         tol2 = tol**2
-        for q in impl["queries"]:
+        for q in ph["queries"]:
             if q["boundary"]:
                 continue
             c = _F(q["centre"])
@@ -755,9 +924,9 @@ class C18(core.Check):
             missed = sorted(set(exp) - set(q["found"]))
             extra = sorted(set(q["found"]) - set(exp))
             if missed:
-                out.append({"site": f"GeometricFinder.{fn}:vertex-missed", "what": f"{q}: vertices {missed} not returned", "observed": q["found"], "expected": exp})
+                out.append({"site": f"GeometricFinder.{fn}:vertex-missed{suffix}", "what": f"{q}: vertices {missed} not returned", "observed": q["found"], "expected": exp})
             if extra:
-                out.append({"site": f"GeometricFinder.{fn}:extra-vertex", "what": f"{q}: vertices {extra} are outside", "observed": q["found"], "expected": exp})
+                out.append({"site": f"GeometricFinder.{fn}:extra-vertex{suffix}", "what": f"{q}: vertices {extra} are outside", "observed": q["found"], "expected": exp})
             if not q["is_set"]:
                 out.append({"site": f"GeometricFinder.{fn}:not-a-set", "what": "result is not a set of vertices"})
         return out
@@ -892,7 +1061,10 @@ class C18(core.Check):
     # ------------------------------------------------------------------ bookkeeping
     def nontrivial_key(self, case, impl):
         if case["kind"] == "find":
-            if not any(q["found"] for q in impl["queries"] if not q["boundary"]):
+            if not any(q["found"] for ph in impl["phases"] for q in ph["queries"] if not q["boundary"]):
+                return None
+        elif case["kind"] == "reorient-seq":
+            if not any("out" in r for r in impl["results"]):
                 return None
         elif case["kind"] == "reorient":
             if not any("out" in r for r in impl["results"]) and case["hex"] != "nonconvex":
@@ -901,7 +1073,7 @@ class C18(core.Check):
 
     def classify(self, case, impl):
         if case["kind"] == "find":
-            b = sum(1 for q in impl["queries"] if q["boundary"])
+            b = sum(1 for ph in impl["phases"] for q in ph["queries"] if q["boundary"])
             return (
                 "find:"
                 + ("round+boxes" if case["mesh"].get("round") else "boxes")
@@ -910,6 +1082,11 @@ class C18(core.Check):
             )
         if case["kind"] == "shape":
             return "shape:" + case["round"]["type"] + (":chained" if case["round"].get("chain") else "")
+        if case["kind"] == "reorient-seq":
+            res = impl["results"]
+            nclear = sum(1 for b in case["blocks"] if _clear_view(b["pts"], case["obs"], case["ceil"]))
+            ret = sum(1 for r in res if "out" in r)
+            return f"history:{len(res)}-blocks:{nclear}-clear:{ret}-returned"
         res = impl["results"]
         state = "returned" if all("out" in r for r in res) else ("rejected" if not any("out" in r for r in res) else "mixed")
         if case["hex"] == "nonconvex":
